@@ -74,6 +74,21 @@ def gen_expr(r, depth, top=True):
         return '(%s)' % gen_expr(r, depth - 1, False)
     f = r.choice(['round', 'round2', 'floor', 'ceil', 'abs', 'int', 'sum', 'min', 'max', 'minl', 'maxl'])
     a = gen_expr(r, depth - 1, False)
+    if r.random() < 0.2:
+        # the results of one builtin (same extra argument) on both sides of an operator: whatever representation a builtin hands back meets arithmetic
+        b = gen_expr(r, depth - 1, False)
+        if f == 'round2':
+            nd = r.choice(['0', '1', '2', '5', '27', '-1', '-2', '-5', '-1', '-3'])
+            fa, fb = 'round(%s, %s)' % (a, nd), 'round(%s, %s)' % (b, nd)
+        elif f in ('sum', 'minl', 'maxl'):
+            g = f.rstrip('l') if f != 'sum' else 'sum'
+            fa, fb = '%s([%s])' % (g, a), '%s([%s, %s])' % (g, b, a)
+        elif f in ('min', 'max'):
+            fa, fb = '%s(%s, %s)' % (f, a, b), '%s(%s, %s)' % (f, b, literal(r))
+        else:
+            fa, fb = '%s(%s)' % (f, a), '%s(%s)' % (f, b)
+        op = r.choice(['/', '/', '*', '+', '-'])
+        return r.choice(['(%s %s %s)', '%s %s %s', '-%s %s %s', '(%s %s %s) / 3']) % (fa, op, fb)
     if f == 'round2':
         return 'round(%s, %s)' % (a, r.choice(['0', '1', '2', '3', '5', '10', '20', '27', '30', '-1', '-2', '-5', '2.7', '1.5', '50', '200', '-40']))
     if f in ('sum', 'minl', 'maxl'):
